@@ -31,14 +31,19 @@ import (
 
 var errSimIO = errors.New("simstore: injected I/O error")
 
+// c19Crash is the panic value with which the simulated process dies in the middle of a request
+// (the request never gets a reply; only what the store had applied survives).
+type c19Crash struct{}
+
 type simStore struct {
 	data  map[string]string
 	calls int
 	// single-fault plan
-	faultAt   int    // store-call index at which the fault fires (-1: none)
-	faultKind string // "notfound" | "io" | "io-after" (mutations: error returned after applying)
-	fired     string // description of the fired fault ("" if none yet)
-	log       []string
+	faultAt    int    // store-call index at which the fault fires (-1: none)
+	faultKind  string // "notfound" | "io" | "io-after" (mutations: error returned after applying)
+	fired      string // description of the fired fault ("" if none yet)
+	crashAfter bool   // die right after the current mutation has been applied
+	log        []string
 }
 
 func newSimStore() *simStore { return &simStore{data: map[string]string{}, faultAt: -1} }
@@ -59,6 +64,14 @@ func (s *simStore) fault(op, key string) (err error, after bool) {
 	}
 	s.fired = fmt.Sprintf("%s %s(%s)", s.faultKind, op, keyClassC19(key))
 	switch s.faultKind {
+	case "crash":
+		panic(c19Crash{})
+	case "crash-after":
+		if op == "Put" || op == "Delete" {
+			s.crashAfter = true
+			return nil, false
+		}
+		panic(c19Crash{})
 	case "notfound":
 		return samlidp.ErrNotFound, false
 	case "io-after":
@@ -91,6 +104,10 @@ func (s *simStore) Put(key string, value interface{}) error {
 		return err
 	}
 	s.data[key] = string(buf)
+	if s.crashAfter {
+		s.crashAfter = false
+		panic(c19Crash{})
+	}
 	return ferr
 }
 
@@ -100,6 +117,10 @@ func (s *simStore) Delete(key string) error {
 		return ferr
 	}
 	delete(s.data, key)
+	if s.crashAfter {
+		s.crashAfter = false
+		panic(c19Crash{})
+	}
 	return ferr
 }
 
@@ -722,6 +743,14 @@ func (w *c19World) step(st c19Step, res *Result) (expected, observed c19Outcome,
 	if w.store.fired != "" && !w.faulted {
 		w.faulted = true
 	}
+	if _, crashed := rep.Panic.(c19Crash); crashed {
+		// the process died mid-request: no reply; a new server starts over whatever the store holds
+		if err := w.newServer(); err != nil {
+			panic(err) // faults are single: start-up cannot be hit as well
+		}
+		w.maybeReg = nil
+		return expected, c19Outcome{Class: "CRASHED"}, dc, "", true, nil
+	}
 	if rep.Panic != nil {
 		return expected, c19Outcome{Class: "PANIC"}, dc, "", false, rep.Panic
 	}
@@ -1010,7 +1039,7 @@ func execC19(t *testing.T, p *Plan) *Result {
 		prevCalls := initialCalls
 		for sidx := range steps {
 			for j := prevCalls; j < ref.calls[sidx]; j++ {
-				for _, kind := range []string{"notfound", "io", "io-after"} {
+				for _, kind := range []string{"notfound", "io", "io-after", "crash", "crash-after"} {
 					var fw *c19World
 					if sidx == 0 {
 						fw = initial.fork()
@@ -1027,9 +1056,18 @@ func execC19(t *testing.T, p *Plan) *Result {
 					for i := sidx; i < len(steps); i++ {
 						st := steps[i]
 						if st.Op == "restart" && fw.store.fired == "" {
-							if err := fw.newServer(); err != nil {
+							var err error
+							crashed := guard(func() { err = fw.newServer() })
+							if crashed != nil {
+								if _, ok := crashed.(c19Crash); !ok {
+									panic(crashed)
+								}
+								err = fw.newServer() // died during start-up; the operator starts it again (the single fault is spent)
+							}
+							if err != nil {
 								break // the pending fault hit start-up: the server refuses to start
 							}
+							fw.maybeReg = nil
 							continue
 						}
 						exp, obs, dc, leak, well, pan := fw.step(st, res)
@@ -1043,7 +1081,11 @@ func execC19(t *testing.T, p *Plan) *Result {
 						}
 					}
 					if fw.store.fired != "" {
-						res.fire("store_err:" + kind)
+						if strings.HasPrefix(kind, "crash") {
+							res.fire("mid_request_crash:" + kind)
+						} else {
+							res.fire("store_err:" + kind)
+						}
 					}
 				}
 			}
@@ -1127,7 +1169,7 @@ func simplifyC19(p *Plan) []*Plan {
 func init() {
 	register(&Profile{
 		ID: "C19", Name: "idpserver", Level: "fault_enumeration",
-		Rule: "histories of 6-17 operations over {put/delete user (with/without/empty password), put/delete service (3 SP identities, 3 names, invalid body), put/delete shortcut, login (right/wrong/empty/other user's password), SSO (redirect/post, cookie of slot k / none / forged, or credentials), shortcut launch, delete session, advance clock (incl. to session expiry -1ms/0/+1ms), list/get calls, restart} are sampled from the seed; for EACH history the check runs (i) the fault-free history against the strict reference model, (ii) a server re-created over the store after EVERY position, compared step by step with the original's outcome classes, (iii) EVERY store call index x {not-found, I/O error before apply, I/O error after apply} as a single injected fault against the relaxed model; evaluations = sampled histories (extra.restart_positions and extra.fault_placements count the enumerated forks); non-trivial = the reference run contains an authentication decision (assertion, session, login form or error); distinct = distinct abstract reference log",
+		Rule: "histories of 6-17 operations over {put/delete user (with/without/empty password), put/delete service (3 SP identities, 3 names, invalid body), put/delete shortcut, login (right/wrong/empty/other user's password), SSO (redirect/post, cookie of slot k / none / forged, or credentials), shortcut launch, delete session, advance clock (incl. to session expiry -1ms/0/+1ms), list/get calls, restart} are sampled from the seed; for EACH history the check runs (i) the fault-free history against the strict reference model, (ii) a server re-created over the store after EVERY position, compared step by step with the original's outcome classes, (iii) EVERY store call index x {not-found, I/O error before apply, I/O error after apply, process crash at that call, process crash right after the call applied} as a single injected fault (a crash abandons the request without a reply and a new server starts over what the store holds) against the relaxed model; evaluations = sampled histories (extra.restart_positions and extra.fault_placements count the enumerated forks); non-trivial = the reference run contains an authentication decision (assertion, session, login form or error); distinct = distinct abstract reference log",
 		Gen:  genC19, Exec: execC19, Simplify: simplifyC19,
 		RunsQuick: 160, RunsThorough: 16000,
 		Assumptions: []string{"emitted assertions are decoded by the real SP the form addresses (request correlation disabled in that monitor)", "session expiry is read from the session object the server stores, not from a constant", "after an injected store error requests are checked for safety only (no unauthorised assertion/session, no hash disclosure, one well-formed reply)", "bcrypt, RSA padding randomness are not behind a seam and never enter the abstract log"},
